@@ -101,20 +101,20 @@ Timeout ==
   /\ act' = [name |-> "Timeout", i |-> sy.w]
 
 FetcherAllocate ==
-  /\ ft.live /\ Cardinality(ft.want) < Fetchers /\ AllocUp(q) >= 0
+  /\ EnvOk /\ ft.live /\ Cardinality(ft.want) < Fetchers /\ AllocUp(q) >= 0
   /\ Install(XFetcherAllocate(Cur))
   /\ act' = [name |-> "FetcherAllocate", i |-> AllocUp(q)]
   /\ UNCHANGED bud
 
 RequestChunk(i, p) ==
-  /\ ft.live /\ i \in ft.want /\ p \in PeersOf(pool, sy.cur) /\ ~QHas(q, i)
+  /\ EnvOk /\ ft.live /\ i \in ft.want /\ p \in PeersOf(pool, sy.cur) /\ ~QHas(q, i)
   /\ XRequest(Cur, i, p) # Cur          \* only requests that matter to a property are distinct steps
   /\ Install(XRequest(Cur, i, p))
   /\ act' = [name |-> "RequestChunk", i |-> i, p |-> p]
   /\ UNCHANGED bud
 
 StaleFetch(p) ==
-  /\ ft.stale > 0 /\ q.open /\ AllocUp(q) >= 0
+  /\ EnvOk /\ ft.stale > 0 /\ q.open /\ AllocUp(q) >= 0
   /\ p \in PeersOf(pool, sy.cur) \cup {Nil}
   /\ Install(XStaleFetch(Cur, p))
   /\ act' = [name |-> "StaleFetch", i |-> AllocUp(q), p |-> p]
